@@ -973,6 +973,50 @@ func ruleGsapBoth(c *Ctx) {
 			fmt.Sprintf("the measurement is not executed exactly when this query succeeded (extra conditions: %d): a found neighbour can be ignored", len(extra)))
 		ms = append(ms, meas{q, mcall})
 	}
+	// (d) the position is given up as a literal for lack of length only when the best length is below MinMatchLen:
+	// on the branch of the length test that does not lead to the emission the conditions contradict m ≥ MinMatchLen
+	// (a match of exactly MinMatchLen is a match)
+	for _, e := range s.Emits {
+		m := stripConv(e.MatchLen)
+		nT := 0
+		for b := range s.L.Blocks {
+			iff, ok := b.Instrs[len(b.Instrs)-1].(*ssa.If)
+			if !ok {
+				continue
+			}
+			bo, ok := unNot(Cond{iff.Cond, true}).V.(*ssa.BinOp)
+			if !ok {
+				continue
+			}
+			var minV ssa.Value
+			for _, pair := range [][2]ssa.Value{{bo.X, bo.Y}, {bo.Y, bo.X}} {
+				if stripConv(pair[0]) == m {
+					if ld, isLd := stripConv(pair[1]).(*ssa.UnOp); isLd && ld.Op == token.MUL {
+						if f := fieldOfAddr(ld.X); f != nil && f.Name() == "MinMatchLen" {
+							minV = pair[1]
+						}
+					}
+				}
+			}
+			if minV == nil {
+				continue
+			}
+			nT++
+			for si, sc := range b.Succs {
+				if sc == e.Block || sc.Dominates(e.Block) {
+					continue
+				}
+				// the give-up side
+				cs := append(append([]Cond{}, fi.condsAt(b)...), Cond{iff.Cond, si == 0})
+				okG := fi.refute(cs, []Fact{{fi.lin(minV).sub(fi.lin(m)), LE}}, 0)
+				c.check(okG, e.Key+":give-up-exact", bo.Pos(), "the position is given up for lack of length only when the best length is below MinMatchLen",
+					"the position can be given up as a literal although its best match has MinMatchLen bytes or more (the length test is one step too wide): C12 allows a literal only where no match of at least MinMatchLen exists")
+			}
+		}
+		if nT == 0 {
+			c.fail(e.Key+":give-up-exact", e.Pos, "no test of the best length against MinMatchLen found in the scan loop")
+		}
+	}
 	// (c) MatchLen = max of the measured lengths
 	for _, e := range s.Emits {
 		key := e.Key + ":max"
@@ -1007,8 +1051,31 @@ func ruleGsapBoth(c *Ctx) {
 						computed = true
 					}
 				}
+				other := fi.lin(mm.call)
 				if !computed {
-					continue
+					// the other measurement was made only on some ways here (under its own query's success): what
+					// this way knows of it is the merged "best so far" — a φ that takes the measurement on the ways
+					// where it was made (and the initial 0 otherwise) and is defined in front of this way
+					var merged *ssa.Phi
+					for _, ph := range fi.phis {
+						feeds := false
+						for _, ev := range ph.Edges {
+							if ev == ssa.Value(mm.call) {
+								feeds = true
+							}
+						}
+						if feeds && isIntType(ph.Type()) {
+							for _, ed := range lf.Edges {
+								if ph.Block() == ed[0] || ph.Block().Dominates(ed[0]) {
+									merged = ph
+								}
+							}
+						}
+					}
+					if merged == nil || ssa.Value(merged) == lf.V {
+						continue
+					}
+					other = fi.lin(merged)
 				}
 				// facts: phi = value along the path; phis fed by mm on its own path
 				extra := append([]Fact{}, lf.Eqs...)
@@ -1033,7 +1100,7 @@ func ruleGsapBoth(c *Ctx) {
 						}
 					}
 				}
-				goal := fi.lin(mm.call).sub(fi.lin(lf.V))
+				goal := other.sub(fi.lin(lf.V))
 				proved := false
 				// conditions of all edges along the path
 				var cs []Cond
@@ -1187,7 +1254,7 @@ func ruleGsapRebuild(c *Ctx) {
 			fmt.Sprintf("the rebuild does not size %s to len(Data) on every path", f.Name()))
 	}
 	// inversion: store isa[sa-element] = range index
-	inv := false
+	inv, invSized := false, false
 	for _, b := range g.sortFn.Blocks {
 		for _, in := range b.Instrs {
 			st, ok := in.(*ssa.Store)
@@ -1201,10 +1268,56 @@ func ruleGsapRebuild(c *Ctx) {
 			// index is the element of a range over sa, value the range index
 			if rangeElemOf(ia.Index, g.saF) && rangeIndexOfSame(stripConv(st.Val), ia.Index) {
 				inv = true
+				// … into an array that has len(Data) elements on EVERY way here (a re-slice dropped on one branch
+				// leaves the length Reset/Shrink gave it: 0)
+				if hasData && sfi.lenOf(ia.X).eq(dataLen) {
+					invSized = true
+				}
+				// … the same for an array that is a merge of "re-sliced" and "freshly made" (a local installed in
+				// the field), and for a field every store to which sizes it (checked above) when no way from the
+				// entry reaches the inversion without passing one of those stores
+				if hasData && !invSized {
+					if _, isLoad := ia.X.(*ssa.UnOp); !isLoad {
+						all := true
+						for _, lf := range mergeLeaves(ia.X) {
+							if !sfi.lenOf(lf.V).eq(dataLen) {
+								all = false
+							}
+						}
+						invSized = all
+					} else {
+						avoid := map[*ssa.BasicBlock]bool{}
+						for _, sb := range g.sortFn.Blocks {
+							for _, sin := range sb.Instrs {
+								if st2, isSt := sin.(*ssa.Store); isSt && fieldOfAddr(st2.Addr) == g.isaF {
+									avoid[sb] = true
+								}
+							}
+						}
+						seenB := map[*ssa.BasicBlock]bool{}
+						stack := []*ssa.BasicBlock{g.sortFn.Blocks[0]}
+						reached := false
+						for len(stack) > 0 {
+							x := stack[len(stack)-1]
+							stack = stack[:len(stack)-1]
+							if seenB[x] || avoid[x] {
+								continue
+							}
+							seenB[x] = true
+							if x == b {
+								reached = true
+								break
+							}
+							stack = append(stack, x.Succs...)
+						}
+						invSized = !reached && len(avoid) > 0
+					}
+				}
 			}
 		}
 	}
 	c.check(inv, sname+":invert", g.sortFn.Pos(), "isa[sa[i]] = i for every i", "the rebuild does not invert the suffix array as isa[sa[i]] = i")
+	c.check(invSized, sname+":invert-sized", g.sortFn.Pos(), "the inverse array has len(Data) elements on every way to the inversion", "the inverse suffix array is not sized to len(Data) on every way to the inversion loop (after Reset or Shrink its length is 0): the first store panics")
 	// window re-insertion: counting loop 0..W inserting isa[x], after a clear of the set
 	reins := false
 	why := "no counting loop inserting isa[x] for x in [0, W)"
@@ -1293,6 +1406,62 @@ func ruleGsapRebuild(c *Ctx) {
 		}
 	}
 	c.check(reins, sname+":window", g.sortFn.Pos(), "after a rebuild the ranks of all positions < W are inserted (the whole window is searchable)", why+": earlier positions are lost as match sources after a rebuild")
+	// … into an EMPTY set: the ranks of the previous suffix array mean other positions in the new one. A call on
+	// the set that empties it (a method that re-slices the set's storage to length 0) reaches every insertion of
+	// the rebuild function and is not followed by… itself being skipped: it dominates them.
+	cleared := false
+	var firstIns ssa.Instruction
+	for _, b := range g.sortFn.Blocks {
+		for _, in := range b.Instrs {
+			call, ok := in.(*ssa.Call)
+			if !ok || call.Call.StaticCallee() == nil || len(call.Call.Args) == 0 || fieldOfAddr(call.Call.Args[0]) != g.setF {
+				continue
+			}
+			if call.Call.StaticCallee() == g.insFn && firstIns == nil {
+				firstIns = call
+			}
+		}
+	}
+	sfi = c.info(g.sortFn)
+	for _, b := range g.sortFn.Blocks {
+		for _, in := range b.Instrs {
+			call, ok := in.(*ssa.Call)
+			if !ok || call.Call.StaticCallee() == nil || len(call.Call.Args) != 1 || fieldOfAddr(call.Call.Args[0]) != g.setF {
+				continue
+			}
+			if emptiesSlice(call.Call.StaticCallee()) && firstIns != nil && sfi.instrDominates(call, firstIns) {
+				cleared = true
+			}
+		}
+	}
+	c.check(cleared, sname+":set-emptied", g.sortFn.Pos(), "the rebuild empties the search set before it inserts the ranks of the new suffix array",
+		"the rebuild does not empty the search set before re-inserting: the ranks left from the previous suffix array denote other positions in the new one, shadow the true neighbours and make the parser give up positions that have a match (their candidates lie ahead of the position and fail the offset test)")
+}
+
+// emptiesSlice: a method without parameters all of whose stores to its receiver's slice field store a re-slice to
+// length 0 (b.a = b.a[:0]), and which has at least one.
+func emptiesSlice(fn *ssa.Function) bool {
+	if fn == nil || fn.Blocks == nil || len(fn.Params) != 1 {
+		return false
+	}
+	n := 0
+	for _, b := range fn.Blocks {
+		for _, in := range b.Instrs {
+			st, ok := in.(*ssa.Store)
+			if !ok {
+				continue
+			}
+			if _, isSl := st.Val.Type().Underlying().(*types.Slice); !isSl {
+				continue
+			}
+			sl, isSlice := st.Val.(*ssa.Slice)
+			if !isSlice || sl.High == nil || !isConstZero(sl.High) {
+				return false
+			}
+			n++
+		}
+	}
+	return n > 0
 }
 
 // rangeElemOf: v is the element value of a range loop over a load of field f
